@@ -416,6 +416,22 @@ def r4_tensor_json(ctx):
     ctx.check(ok, "C16.R4", lc, rd[0] if rd else lc.node, "CSV identifiers read as strings", "CSV identifiers are not forced to strings: numeric-looking identifiers change type")
 
 
+def r4b_from_pytorch_keeps_shapes(ctx):
+    """'shapes preserved, for scalar and vector-valued parameters alike': `from_pytorch` takes the value of individual i as `tensor[i].tolist()` -
+    a scalar for a 1-D tensor, a list for a 2-D one.  Re-shaping the tensor first (`reshape(n, -1)`) gives every scalar parameter the shape (1,)."""
+    from ..astq import Canon
+    import re as _re
+    ctx.rule("C16.R4b", "from_pytorch: the value of individual i is `tensor[i].tolist()` (no re-shaping of the tensors)", 1)
+    f = ctx.ix.func(MOD, f"{CLS}.from_pytorch", "C16.R4b")
+    ctx.analysed(f)
+    L = Canon(f.node).lines(False, True)
+    text = "; ".join(ln for ln in L if ".tolist()" in ln or "add_individual_parameters" in ln or "reshape" in ln or ".view(" in ln)
+    ok = any(_re.fullmatch(r"(%\d+) = \{(%\d+): \$1\[\2\]\[(%\d+)\]\.tolist\(\) for \2 in (%\d+|\$1(\.keys\(\))?)\}", ln) for ln in L)
+    ctx.form("C16.R4b", f, f.node, text, {text} if ok else set(), [".tolist()", "add_individual_parameters("], "per-individual value = tensor[i].tolist()",
+             "from_pytorch no longer takes the per-individual values as `tensor[i].tolist()`: the shape of a parameter given as a 1-D tensor (a scalar per individual) is not preserved",
+             forbidden=[r"\.reshape\(", r"\.view\(", r"\.flatten\(", r"\.unsqueeze\(", r"atleast_"], construct="per-individual values")
+
+
 def r5_exact_export(ctx):
     """'convert losslessly': the table / CSV / JSON writers export the values with every digit they have (pandas and json write the
     shortest exact representation of a double by default) - no default float format, rounding or narrowing cast."""
@@ -464,6 +480,7 @@ def rules(ctx):
     r3_codec(ctx)
     r3d_rows_follow_the_column_names(ctx)
     r4_tensor_json(ctx)
+    r4b_from_pytorch_keeps_shapes(ctx)
     r5_exact_export(ctx)
     r6_readers_keep_everything(ctx)
     ctx.trust("pandas DataFrame / json round trip of Python scalars and lists")
